@@ -436,11 +436,11 @@ func C11(t *testing.T, ch *choice.Source, opt harness.Options, env *Env) harness
 			// the direct-storage copy path on a timing platform bypasses the
 			// write-back caches (see known findings)
 			res.Signature += "/timing-direct-storage-path-after-kernel"
-		} else if stale != nil && stale.StaleHits > 0 && everKernel {
+		} else if cause, ex := stale.knownCause(); cause != "" && everKernel {
 			// a copy kernel read a line from a first-level cache that another CU's kernel had rewritten
 			// (see known findings): named by observation on the caches' ports
-			res.Signature = "data-differs/" + staleL1Cause
-			res.Detail += fmt.Sprintf("; %d stale first-level-cache reads, first: %s", stale.StaleHits, stale.Example)
+			res.Signature = "data-differs/" + cause
+			res.Detail += "; " + ex
 		}
 	}
 	if res.Failed() {
